@@ -60,6 +60,20 @@ PROPS = {
         "trusted_base": COMMON_TB + ["double SHA-256 executable model validated on vectors"],
         "assumptions": ["the original algorithm is transcribed correctly in satoshiSpec (validated against 500 node-generated vectors)", "32-byte previous txids (Tx.wf), as the property states"],
     },
+    "C13": {
+        "manifest": {
+            "text": "Lean 4 theorems: EncodeParts/DecodeParts round trip for all non-empty items < 2^32 bytes with the shortest push form; Unparse(Parse s) = s for every script the interpreter's parser accepts (incl. the unformatted-data pseudo-opcode after a top-level OP_RETURN); the parser with the OP_RETURN rule off is the same automaton as DecodeParts (same acceptance, same push boundaries, truncated pushes are errors for both) and the rule cannot fire without an OP_RETURN byte; hex round trip; the regenerated opcode-name tables are mutually inverse, every name starts with OP_, and the parser's length function equals the regenerated opcodeArray length column (kernel-evaluated on every run). Tied to the code by a differential check (all byte strings up to 2/3 bytes, every cut of generated scripts, OP_RETURN tails 0..5 bytes, push boundaries) that also evaluates the round-trip/agreement predicates on the implementation's own outputs.",
+            "note": "Trusted: Lean kernel + standard axioms, the extractor (go/packages + go/types constant evaluation), harness/generators/comparer, driver glue incl. splitting ASM on spaces. The ASM round trip is checked by correspondence + table theorems; its end-to-end theorem is not yet proved (partial for that clause).",
+            "technique": "Lean 4 proof over hand-written model + regenerated opcode tables + differential correspondence check",
+        },
+        "generators": ["C13"],
+        "thorough_seeds": 2,
+        "gen_obligations": ["opLength_matches_table", "asm_tables_inverse", "asm_names_prefixed"],
+        "rule": "item lists with lengths {1,2,3,74..77,254..257,520,521,(65535..65537)}, every one-byte item, random lists; all byte strings of length <= 2 (quick) / a 3-byte sweep (thorough) through both tokenisers and ASM; every cut position of generated well-formed scripts; raw tails of 0,1,2,3,4,5,40 bytes after a top-level OP_RETURN; OP_RETURN inside conditionals; every opcode alone and in context through ASM. Non-trivial = script/item list of >= 2 bytes.",
+        "nontrivial": lambda op, impl: len(op.partition(" ")[2]) >= 4,
+        "trusted_base": COMMON_TB + ["fact extractor /verif/extract (opcode tables, constants)"],
+        "assumptions": ["encoding/hex and encoding/json behave as modelled; strings.Split on single spaces"],
+    },
 }
 
 NOT_APPLICABLE = {}
